@@ -128,8 +128,7 @@ def tlc(module, cfg, *, workers=None, sink=None, simulate=None, depth=None, seed
                 m = re.search(r"Action property (\S+) is violated|Temporal properties were violated", line)
                 if m:
                     res.violation = m.group(1) or "temporal"
-                if "Error: Evaluating" in line or "The postcondition" in line and "violated" in line or \
-                        "Error: Assumption" in line:
+                if re.search(r"Postcondition \S+ .*is false", line):
                     res.violation = res.violation or "postcondition"
                 if "Deadlock reached" in line:
                     res.violation = res.violation or "deadlock"
@@ -404,8 +403,8 @@ class Check:
         re-running them alone; sort into known findings and violations."""
         groups = {}
         for d in divs:
-            key = (d.get("api"), d.get("finding") or "", d.get("want"), d.get("got")) if not d.get("finding") \
-                else (d.get("finding"),)
+            sig = re.sub(r'"[^"]*"|[0-9]+', "#", (d.get("want") or "") + "|" + (d.get("got") or ""))[:60]
+            key = (d.get("api"), sig) if not d.get("finding") else (d.get("finding"),)
             groups.setdefault(key, []).append(d)
         for key, ds in groups.items():
             fid = ds[0].get("finding") or ""
@@ -439,7 +438,10 @@ class Check:
         for fid, n in sorted(self.known.items()):
             f = self.findings[fid]
             print("KNOWN-FINDING: property=%s %s: %s (%d divergences this run)" % (self.prop, fid, f.get("what", ""), n))
-        for d, n in self.violations:
+        self.violations.sort(key=lambda x: -x[1])
+        if len(self.violations) > 8:
+            print("(%d further violation groups not listed)" % (len(self.violations) - 8))
+        for d, n in self.violations[:8]:
             h = hashlib.sha1(json.dumps(d, sort_keys=True).encode()).hexdigest()[:12]
             path = os.path.join(ROOT, "replays", "%s-%s.json" % (self.prop, h))
             d = dict(d)
@@ -478,3 +480,34 @@ def spec_hash(*mods):
     for m in mods:
         h.update(open(os.path.join(SPEC, m), "rb").read())
     return h.hexdigest()[:16]
+
+
+# ---------------------------------------------------------------- trace validation
+
+def validate_trace(module, cfg, tracefile, *, extra_files=(), timeout=900, dfs=False, tag=None):
+    """Run a Trace* specification over a recorded ndjson trace (copied as trace.ndjson).
+    Returns (accepted, rejected_at_event_or_None, TLCResult)."""
+    run_files = []
+    tmp = os.path.join(WORK, "tmp")
+    os.makedirs(tmp, exist_ok=True)
+    dst = os.path.join(tmp, "trace-%d" % os.getpid())
+    os.makedirs(dst, exist_ok=True)
+    tf = os.path.join(dst, "trace.ndjson")
+    shutil.copy(tracefile, tf)
+    try:
+        res = tlc(module, cfg, workers=1, files=[tf] + list(extra_files), timeout=timeout, dfs=dfs, tag=tag)
+    finally:
+        shutil.rmtree(dst, ignore_errors=True)
+    rej = None
+    for line in res.log:
+        m = re.search(r'TRACE-REJECTED-AT", (\d+)', line)
+        if m:
+            rej = int(m.group(1))
+    if res.ok:
+        return True, None, res
+    if rej is None:
+        if res.violation and res.violation not in ("postcondition",):
+            # an invariant of the spec failed on a state reached by the real execution
+            return False, -1, res
+        raise Infra("trace validation failed without a rejection point:\n" + "\n".join(res.log[-40:]))
+    return False, rej, res
